@@ -24,26 +24,16 @@ func timeNS(v Value) *smt.Term {
 
 func registerMisc(e *Engine) {
 	I := e.intrinsics
+	// frozen clock: time.Now() is one symbolic instant T0 (internal input) plus
+	// whatever the harness advanced through vhClockAdvance.
 	I["time.Now"] = func(in *Interp, fn *ssa.Function, a []Value) Value {
-		c := in.ctx
-		t := in.drawInput("time.now", "u64", 64)
-		in.res.NoNative = true
-		// non-decreasing, positive, and far from overflow
-		lo := c.BV(1, 64)
-		if in.lastNow != nil {
-			lo = in.lastNow
-		}
-		in.assume(c.And(c.Sle(lo, t), c.Slt(t, c.BV(1<<62, 64))))
-		in.lastNow = t
-		return in.mkTime(t)
+		return in.mkTime(in.clockNow())
 	}
 	I["time.Since"] = func(in *Interp, fn *ssa.Function, a []Value) Value {
-		now := timeNS(in.callNamed("time", "Now"))
-		return in.ctx.BVSub(now, timeNS(a[0]))
+		return in.ctx.BVSub(in.clockNow(), timeNS(a[0]))
 	}
 	I["time.Until"] = func(in *Interp, fn *ssa.Function, a []Value) Value {
-		now := timeNS(in.callNamed("time", "Now"))
-		return in.ctx.BVSub(timeNS(a[0]), now)
+		return in.ctx.BVSub(timeNS(a[0]), in.clockNow())
 	}
 	I["(time.Time).Sub"] = func(in *Interp, fn *ssa.Function, a []Value) Value {
 		return in.ctx.BVSub(timeNS(a[0]), timeNS(a[1]))
@@ -79,8 +69,42 @@ func registerMisc(e *Engine) {
 	I["(time.Time).String"] = func(in *Interp, fn *ssa.Function, a []Value) Value { return StrV{S: "<time>"} }
 	I["time.Sleep"] = func(in *Interp, fn *ssa.Function, a []Value) Value {
 		in.res.Events = append(in.res.Events, "sleep")
+		in.now = in.ctx.BVAdd(in.clockNow(), a[0].(*smt.Term))
 		return TupleV{}
 	}
+	harnessIntrinsics["vhClockAdvance"] = func(in *Interp, fn *ssa.Function, a []Value) Value {
+		in.now = in.ctx.BVAdd(in.clockNow(), a[0].(*smt.Term))
+		return TupleV{}
+	}
+	// timers: C is a symbolic channel that can fire at most vhTimerBudget times
+	I["time.NewTimer"] = func(in *Interp, fn *ssa.Function, a []Value) Value {
+		t := in.namedType("time", "Timer")
+		l := in.newLoc(t)
+		in.nextID++
+		elem := under(in.structField(l, "C").T).(*types.Chan)
+		in.structField(l, "C").V = &ChanV{T: elem, Sym: true, Tag: "timer", ID: in.nextID}
+		return l
+	}
+	I["(*time.Timer).Reset"] = func(in *Interp, fn *ssa.Function, a []Value) Value { return in.ctx.True }
+	I["(*time.Timer).Stop"] = func(in *Interp, fn *ssa.Function, a []Value) Value { return in.ctx.True }
+	I["time.After"] = func(in *Interp, fn *ssa.Function, a []Value) Value {
+		in.nextID++
+		ct := types.NewChan(types.RecvOnly, in.namedType("time", "Time"))
+		return &ChanV{T: ct, Sym: true, Tag: "after", ID: in.nextID}
+	}
+	harnessIntrinsics["vhTimerBudget"] = func(in *Interp, fn *ssa.Function, a []Value) Value {
+		in.timerBudget = in.concreteInt(a[0], "timer budget")
+		return TupleV{}
+	}
+	// contexts: deadlines and cancellation are not modelled here (no timers, no
+	// goroutines): the derived context is the parent, cancel is a no-op.
+	ctxDerive := func(in *Interp, fn *ssa.Function, a []Value) Value {
+		cancel := &FuncV{Name: "cancel", Native: func(in *Interp, args []Value) Value { return TupleV{} }}
+		return TupleV{a[0], cancel}
+	}
+	I["context.WithTimeout"] = ctxDerive
+	I["context.WithDeadline"] = ctxDerive
+	I["context.WithCancel"] = ctxDerive
 
 	// sort.Slice / SliceStable: the insertion sort the standard library uses
 	// for short slices (n <= 12), driven by the caller's less function.
@@ -229,4 +253,15 @@ func (in *Interp) deepCopy(v Value) Value {
 		return o
 	}
 	return v
+}
+
+func (in *Interp) clockNow() *smt.Term {
+	if in.now == nil {
+		c := in.ctx
+		t := in.fresh("time.T0", 64)
+		in.inputs = append(in.inputs, Input{Tag: "time.T0", Kind: "u64", Term: t, Internal: true})
+		in.assume(c.And(c.Sle(c.BV(1<<40, 64), t), c.Slt(t, c.BV(1<<61, 64))))
+		in.now = t
+	}
+	return in.now
 }
